@@ -300,6 +300,37 @@ Proof.
   - split; reflexivity.
 Qed.
 
+(* ---- the log a length-limited load returns is a replica: the history goes on with it.
+   What NewFromJSON with Length n hands to NewLog is, by C10_json, the last n of the stored log in clock
+   order (NewFromEntryHash: C10_entryhash, with the other ordering).  Such a part of the log, opened
+   without heads, is an admissible step of the histories with re-opened logs (Proofs/POpen.v,
+   Proofs/ReloadBridge.v): the loaded log is a log in the full sense - heads = its unreferenced entries,
+   exact index, complete sorted causal Values() (the C16_reopened theorems) - and so is everything appended to it and
+   merged with it afterwards, although it is causally open and its clock starts at 0. *)
+From IpfsLog Require Import Model.System Proofs.Inv Proofs.SysProofs Proofs.PInv Proofs.PSys Proofs.POpen
+  Proofs.BridgeProofs Proofs.ReloadBridge.
+
+Theorem C10_limited_reload_is_a_replica (ops : list op) (r : nat) (l : log) (n : Z)
+        (cmp : fentry -> fentry -> cres) key sf deny :
+  wf ops -> nth_error (s_logs (run ops)) r = Some l ->
+  let X := last_n n (sort_go cmp false (fentries_of l)) in
+  let reopen := OOpen r (map fe_hash X) [] (l_id l) key sf deny in
+  owf (ops ++ [reopen]) /\
+  exists lr, nth_error (s_logs (run (ops ++ [reopen]))) (length (s_logs (run ops))) = Some lr /\
+    map fentry_of (ents lr) = X /\ l_id lr = l_id l.
+Proof.
+  intros W L X reopen.
+  assert (WO : owf ops) by (apply pwf_owf, wf_pwf, W).
+  destruct (sinv_run ops W) as [UO IL]. pose proof (IL r l L) as I.
+  assert (HI : incl X (fentries_of l)).
+  { intros x Hx. apply last_n_incl in Hx. unfold sort_go in Hx. now apply gosort_in in Hx. }
+  assert (ND : NoDup (map fe_hash X)).
+  { apply last_n_nodup_hashes. unfold hashes, sort_go.
+    eapply Permutation_NoDup; [apply Permutation_map; symmetry; apply gosort_perm|].
+    rewrite hashes_fentries. rewrite (keys_are_hashes _ l I). apply (li_nodup _ _ I). }
+  exact (reloaded_selection_is_a_replica ops r l X key sf deny WO L HI ND).
+Qed.
+
 Print Assumptions C10_min_clock_invariant.
 Print Assumptions C10_fetch_window.
 Print Assumptions C10_schedule_independent.
@@ -315,3 +346,4 @@ Print Assumptions C10_example_tie_free.
 Print Assumptions C10_regression_manifest_n0.
 Print Assumptions C10_regression_json_no_trim.
 Print Assumptions C10_regression_fromentry_drops_supplied.
+Print Assumptions C10_limited_reload_is_a_replica.
